@@ -119,4 +119,7 @@ func mkCase(prop, class string, s *ref.Struct, v *ref.Val, input []byte, detail 
 	return c
 }
 
-func init() { harness.RaceBuild = hooks.RaceBuild }
+func init() {
+	harness.RaceBuild = hooks.RaceBuild
+	harness.Invisible = hooks.Invisible
+}
